@@ -544,7 +544,7 @@ def order_formula(nf: NF, e, sc, names: dict | None = None):
             elif isinstance(op, ast.NotEq):
                 f = ("not", ("cmp", "eq", a, b))
             else:
-                raise Unknown(f"operator {type(op).__name__}")
+                f = ("opaque", nf.poly(ast.Compare(left=parts[i], ops=[op], comparators=[parts[i + 1]]), sc, None).canon())
             conj.append(f)
         return conj[0] if len(conj) == 1 else ("and", tuple(conj))
     return ("truth", nf.poly(e, sc, None))
@@ -562,6 +562,8 @@ def eval_order_formula(model: OrderModel, world, f) -> bool:
         return any(eval_order_formula(model, world, g) for g in f[1])
     if k == "truth":
         return model.sign(world, f[1]) != 0
+    if k == "opaque":
+        raise Unknown(f[1])
     s = model.sign(world, f[2] - f[3])
     return s < 0 if f[1] == "lt" else s == 0
 
@@ -610,3 +612,92 @@ def result_position(cfg, name: str, at: int, depth: int = 0):
     if len(ds) != 1:
         return None
     return result_position_def(cfg, ds[0], depth)
+
+
+# ---------------------------------------------------------------------------------------------------------------------------
+# per-path summaries of a loop-free function for table comparison in an OrderModel
+class PathSummary:
+    __slots__ = ("path", "conds", "pe", "ret", "ret_elts", "names")
+
+
+def summarise_paths(nf: NF, cfg, mi, qual: str, env0: dict, store0: dict, self_class=None):
+    """Evaluate every acyclic entry->exit path: branch conditions as order formulas in the state at the test, final environment / store,
+    returned value (and, for tuple displays, each element as (formula, poly))."""
+    from .sympath import enumerate_paths, PathEval
+    out = []
+    for p in enumerate_paths(cfg, cfg.entry, {cfg.exit}):
+        pe = PathEval(nf, cfg, mi, qual, env0, self_class=self_class)
+        pe.store = dict(store0)
+        sm = PathSummary()
+        sm.path, sm.conds, sm.pe, sm.ret, sm.ret_elts, sm.names = p, [], pe, None, None, {}
+        for nid, lab in p:
+            n = cfg.nodes[nid]
+            if n.kind == "test" and hasattr(n.ast, "test") and lab in (True, False):
+                f = order_formula(nf, n.ast.test, pe.scope(), sm.names)
+                sm.conds.append(f if lab else ("not", f))
+            if n.kind == "stmt" and isinstance(n.ast, ast.Assign) and len(n.ast.targets) == 1 and isinstance(n.ast.targets[0], ast.Name):
+                v = n.ast.value
+                if isinstance(v, (ast.Compare, ast.BoolOp)) or (isinstance(v, ast.UnaryOp) and isinstance(v.op, ast.Not)) or (isinstance(v, ast.Constant) and isinstance(v.value, bool)) \
+                        or (isinstance(v, ast.Name) and v.id in sm.names):
+                    sm.names[n.ast.targets[0].id] = order_formula(nf, v, pe.scope(), sm.names)
+                else:
+                    sm.names.pop(n.ast.targets[0].id, None)
+            if n.kind == "stmt" and isinstance(n.ast, ast.Return) and n.ast.value is not None:
+                rv = n.ast.value
+                sm.ret = pe.ev(rv)
+                if isinstance(rv, ast.Tuple):
+                    sm.ret_elts = [(order_formula(nf, x, pe.scope(), sm.names), pe.ev(x)) for x in rv.elts]
+            pe.step(nid, lab)
+        out.append(sm)
+    return out
+
+
+def active_summaries(model: OrderModel, world, summaries):
+    return [sm for sm in summaries if all(eval_order_formula(model, world, f) for f in sm.conds)]
+
+
+def ingredient_tokens(p: Poly) -> set:
+    import re
+    return set(re.findall(r"[A-Za-z_][A-Za-z_0-9]*", p.canon()))
+
+
+def same_ingredients(got: Poly, want: Poly, extra=()) -> bool:
+    """The value is built from the same named quantities and functions as the documented one (only combined differently): a
+    disagreement of the normal forms is then a disagreement of the values, not an unrecognised way of writing the same thing."""
+    return ingredient_tokens(got) <= (ingredient_tokens(want) | set(extra))
+
+
+def split_conditional_assignments(fn: ast.FunctionDef) -> ast.FunctionDef:
+    """Copy of a function in which `x = a if c else b` (and `return a if c else b`) are written as if / else statements, so that
+    path analyses see the two cases as paths.  The original tree is not touched."""
+    from .expand import clone
+    new = clone(fn)
+
+    def block(stmts):
+        out = []
+        for st in stmts:
+            for f in ("body", "orelse", "finalbody"):
+                v = getattr(st, f, None)
+                if isinstance(v, list) and v and isinstance(v[0], ast.stmt) and not isinstance(st, (ast.FunctionDef, ast.ClassDef)):
+                    setattr(st, f, block(v))
+            for h in getattr(st, "handlers", []) or []:
+                h.body = block(h.body)
+            if isinstance(st, (ast.Assign, ast.Return)) and isinstance(st.value, ast.IfExp):
+                ie = st.value
+
+                def mk(val):
+                    s2 = clone(st)
+                    s2.value = val
+                    return s2
+                out += block([ast.copy_location(ast.If(test=ie.test, body=[mk(ie.body)], orelse=[mk(ie.orelse)]), st)])
+            else:
+                out.append(st)
+        return out
+    new.body = block(new.body)
+    ast.fix_missing_locations(new)
+    for parent in ast.walk(new):
+        for child in ast.iter_child_nodes(parent):
+            child._parent = parent
+    if hasattr(fn, "_module"):
+        new._module = fn._module
+    return new
